@@ -6,6 +6,7 @@ import (
 	"fmt"
 	"io"
 	"strings"
+	"time"
 
 	smtp "github.com/emersion/go-smtp"
 
@@ -30,6 +31,7 @@ type c05Case struct {
 	HugeAfter int     `json:"huge_after"` // a normal chunk of this many octets is accepted before the huge one (size limit 40)
 	Huge      string  `json:"huge"`       // declared size of a BDAT whose octets can never all arrive (decimal string)
 	NoLast    string  `json:"no_last"`    // "", QUIT, disconnect: no chunk carries LAST; the transfer is ended this way
+	StallAt   int     `json:"stall_at"`   // > 0: ReadTimeout is set and the read deadline is fired after this many payload octets; the peer then carries on
 }
 
 func init() {
@@ -58,7 +60,7 @@ func lfFreeRun(b []byte) int {
 func repeatByte(b byte, n int) []byte { return bytes.Repeat([]byte{b}, n) }
 
 func c05Run(ctx *core.Ctx) {
-	ctx.Rule = "messages from a hostile payload corpus (CRLF.CRLF, command look-alikes, all 256 octet values, LF-free runs of 10/limit-1/limit/limit+1/3*limit) x all compositions of short messages into <=4 chunks incl. zero-size chunks and both LAST placements, seeded chunkings of longer ones x segmentation {command+payload glued, payload in own segment, whole transaction in one segment, seeded cuts} x refused BDATs {no MAIL, every RCPT rejected, bad LAST token, three arguments, over the size limit} carrying bait commands x {SMTP, LMTP}. Non-trivial: more than one chunk, or a zero-size chunk, or a refused BDAT; distinct by full case."
+	ctx.Rule = "messages from a hostile payload corpus (CRLF.CRLF, command look-alikes, all 256 octet values, LF-free runs of 10/limit-1/limit/limit+1/3*limit) x all compositions of short messages into <=4 chunks incl. zero-size chunks and both LAST placements, seeded chunkings of longer ones x segmentation {command+payload glued, payload in own segment, whole transaction in one segment, seeded cuts} x refused BDATs {no MAIL, every RCPT rejected, bad LAST token, three arguments, over the size limit} carrying bait commands x {SMTP, LMTP}; chunks (accepted, refused, over the limit; LAST or not) overtaken by the read timeout at four payload offsets (ReadTimeout set, virtual deadline fired) with the peer carrying on afterwards. Non-trivial: more than one chunk, or a zero-size chunk, or a refused BDAT; distinct by full case."
 	ctx.Assumptions = []string{"BDAT with an unparsable size is not judged (octet count unknown)", "known finding C05:linelimit-readahead is matched only when a payload LF-free run shares a segment with its BDAT command line and the symptom is the 500 5.4.0 too-long-line close"}
 	all256 := make([]byte, 256)
 	for i := range all256 {
@@ -202,10 +204,30 @@ func c05Run(ctx *core.Ctx) {
 				}
 			}
 		}
+		// a chunk overtaken by the read timeout: the rest of its payload arrives afterwards
+		for _, pay := range []string{
+			"xxxx\r\nMAIL FROM:<bait-1@x.test>\r\nRCPT TO:<bait-2@x.test>\r\n",
+			"MAIL FROM:<bait-1@x.test>\r\nRCPT TO:<bait-2@x.test>\r\nBDAT 2 LAST\r\nzz",
+			"y\r\nRSET\r\nMAIL FROM:<bait-1@x.test>\r\nRCPT TO:<bait-2@x.test>\r\nDATA\r\n",
+		} {
+			for _, at := range []int{1, 6, len(pay) / 2, len(pay) - 1} {
+				for _, last := range []bool{false, true} {
+					for _, refuse := range []string{"", "nomail", "overlimit"} {
+						for _, mode := range modes {
+							emit(c05Case{Msg: []byte(pay), MsgQ: fmt.Sprintf("%.80q", pay), Chunks: []int{len(pay)}, ExtraLast: last, Mode: mode, Refuse: refuse, StallAt: at})
+						}
+					}
+				}
+			}
+		}
 	}, c05Exec)
 }
 
 func c05Exec(ctx *core.Ctx, c c05Case) {
+	if c.StallAt > 0 {
+		c05Stall(ctx, c)
+		return
+	}
 	if c.Huge != "" {
 		c05Huge(ctx, c)
 		return
@@ -653,5 +675,92 @@ func c05Huge(ctx *core.Ctx, c c05Case) {
 	}
 	if ctx.WantSample("huge") {
 		ctx.Sample("huge", map[string]any{"declared": c.Huge, "last": c.ExtraLast, "replies": codes(tail)})
+	}
+}
+
+// c05Stall: the read timeout overtakes a chunk (accepted or refused) in the middle of its payload
+// and the peer carries on sending. Whether the server gives the connection up or still skips the
+// declared octets is its choice; the rest of the payload must not run as commands, and the
+// backend must not be told that the message is complete.
+func c05Stall(ctx *core.Ctx, c c05Case) {
+	ctx.Eval(fmt.Sprintf("stall|%q|%d|%v|%s|%s", c.Msg, c.StallAt, c.ExtraLast, c.Refuse, c.Mode), true)
+	rig := newRig(c.Mode, func(s *smtp.Server) {
+		s.ReadTimeout = time.Hour // virtual clock: expires only when the harness fires it
+		if c.Refuse == "overlimit" {
+			s.MaxMessageBytes = 10
+		}
+	})
+	rig.BE.H.Data = func(sess int, r *rec.Reader, st smtp.StatusCollector) error {
+		err := r.ReadAll(300)
+		if err != nil && err.Error() == "EOF" {
+			return nil
+		}
+		return err
+	}
+	p := rig.Dial()
+	pre := c.Mode.hello() + "\r\n"
+	n := 2
+	if c.Refuse != "nomail" {
+		pre += "MAIL FROM:<s@x.test>\r\nRCPT TO:<r1@x.test>\r\n"
+		n = 4
+	}
+	p.SendStr(pre)
+	head, err := expect(p, n)
+	if err != nil {
+		p.Close()
+		rig.Finish()
+		ctx.Inconclusive("C05 stall preamble")
+		return
+	}
+	cmd := fmt.Sprintf("BDAT %d", len(c.Msg))
+	if c.ExtraLast {
+		cmd += " LAST"
+	}
+	p.SendStr(cmd + "\r\n")
+	p.Send(c.Msg[:c.StallAt])
+	if idle, werr := p.Raw.WaitPeerIdle(wire.Watchdog); werr != nil || !idle {
+		p.Close()
+		rig.Finish()
+		ctx.Inconclusive("C05 stall: the server did not go idle inside the chunk")
+		return
+	}
+	fired := p.SrvEnd.FireReadDeadline()
+	if fired {
+		rig.Log.Act("read deadline fired inside the chunk")
+		ctx.Add("read_deadlines_fired_inside_a_chunk", 1)
+	}
+	p.Send(c.Msg[c.StallAt:])
+	p.SendStr("MAIL FROM:<marker-1@x.test>\r\nNOOP\r\nQUIT\r\n")
+	p.Raw.CloseWrite()
+	tail, rerr := p.ReadAll()
+	p.Close()
+	fin := rig.Finish()
+	ends := waitDataEnds(rig.Log)
+	if isWatchdog(rerr) || !fin || !ends {
+		ctx.Inconclusive("C05 stall watchdog")
+		return
+	}
+	ev := rig.Log.Events()
+	ctx.Add("backend_events", countBackendEvents(ev))
+	ctx.Add("replies_parsed", int64(len(head)+len(tail)))
+	fail := func(sig, msg string) {
+		ctx.Violate(sig, msg+fmt.Sprintf(" [payload=%q stall_at=%d last=%v refuse=%s mode=%s fired=%v]", c.Msg, c.StallAt, c.ExtraLast, c.Refuse, c.Mode, fired), c, witness(rig.Log, append(head, tail...)))
+	}
+	for _, e := range ev {
+		if e.Ph == "b" && (e.Kind == "Mail" || e.Kind == "Rcpt") && strings.HasPrefix(e.A, "bait") {
+			fail("C05:payload-executed:after-timeout", fmt.Sprintf("chunk payload that arrived after a read timeout was executed as a command: %s(%q)", e.Kind, e.A))
+			return
+		}
+	}
+	if fired {
+		for _, d := range dataEnds(ev) {
+			if d.B == "EOF" && d.A != string(c.Msg) {
+				fail("C05:eof-after-timeout", fmt.Sprintf("the backend's reader ended in EOF after %d of %d octets of a chunk cut by the read timeout", len(d.A), len(c.Msg)))
+				return
+			}
+		}
+	}
+	if ctx.WantSample("stall/" + c.Refuse) {
+		ctx.Sample("stall/"+c.Refuse, map[string]any{"payload": fmt.Sprintf("%q", c.Msg), "stall_at": c.StallAt, "last": c.ExtraLast, "refuse": c.Refuse, "fired": fired, "replies": codes(tail)})
 	}
 }
